@@ -10,7 +10,7 @@ import copy, json, re
 from hypothesis import strategies as st
 
 from vf import findings, hyp
-from vf.gens import holes
+from vf.gens import holes, c12_shapes as shapes
 from vf.oracles.struct import struct, walk
 from vf.props.c02 import site_of
 
@@ -185,13 +185,15 @@ def check_inlining(timg, eimg, values):
     ds = all_diffs(canon(timg, drop_exists_query=True), canon(eimg, drop_exists_query=True), limit=200)
     seen = []
     for path, a, b in ds:
-        if _cls(a) != 'Parameter' or _cls(b) != 'Constant':
+        if _cls(a) != 'Parameter' or _cls(b) not in ('Constant', 'NullConstant'):
             return f'difference outside the holes at {path}'
         fa, fb = dict(a[2:]), dict(b[2:])
         if fa.get('alias') != fb.get('alias') or fa.get('parentheses') != fb.get('parentheses'):
             return f'decoration differs at {path}'
         if fa.get('value') != ('str', '?') or fb.get('with_quotes') != ('bool', True):
             return f'unexpected hole image at {path}'
+        if (_cls(b) == 'NullConstant') != (fb.get('value') == ('NoneType', None)):
+            return f'unexpected NULL image at {path}'
         seen.append(fb.get('value'))
     want = [struct(v) for v in values]
     if sorted(seen, key=repr) != sorted(want, key=repr):
@@ -219,6 +221,8 @@ def binding_tags(ds, values):
     for path, a, b in ds:
         if _cls(a) == 'Parameter':
             tags.add('binding:left-unbound')
+        elif _cls(a) == 'Constant' and _cls(b) == 'NullConstant' and dict(a[2:]).get('value') == ('NoneType', None):
+            tags.add('binding:null-as-constant')
         elif path.endswith('<Constant>.value'):
             tags.add('binding:value-of-another-hole' if a in vimgs else 'binding:foreign-value')
         elif path.endswith('<Constant>.alias'):
@@ -269,7 +273,7 @@ def judge_exec(pl, st_, values, etree, cat, cfg, classes):
     from mindsdb_sql import parse_sql
     from mindsdb_sql.planner import plan_query, utils
     parts, tpl, n = st_['parts'], st_['tpl'], st_['n']
-    inl = holes.text(parts, values)
+    inl = shapes.text(parts, values)
     feats = set(st_['feats'])
     out = []
     eimg = struct(etree)
@@ -352,7 +356,7 @@ def judge_exec(pl, st_, values, etree, cat, cfg, classes):
     if lost:
         # hypothesis: the only deviation is the lost alias / parentheses of bound holes
         try:
-            neutral = plan_query(parse_sql(holes.text(parts, values, drop=tuple(lost))), **catalog(cat)).steps
+            neutral = plan_query(parse_sql(shapes.text(parts, values, drop=tuple(lost))), **catalog(cat)).steps
             if canon(struct(neutral)) == gimg:
                 classes.add('neutralised:' + '+'.join(sorted(lost)))
                 out.append(findings.record(
@@ -395,7 +399,7 @@ def tree_records(kind, d1, lost, values, feats, cfg, detail_head, tpl):
 
 def judge(case, col):
     from mindsdb_sql import parse_sql
-    from mindsdb_sql.planner import query_planner
+    from mindsdb_sql.planner import query_planner, plan_query
     from mindsdb_sql.exceptions import PlanningException
     cat = case['catalog']
     cfg = {'catalog': cat}
@@ -403,6 +407,8 @@ def judge(case, col):
     classes = {'catalog:' + cat}
     pl = query_planner.QueryPlanner(**catalog(cat))
     cur = None                  # the model: last prepared template
+    last_prep = None            # parts / tags / tree object / image of the last prepare (for `same`)
+    earlier_ctes = set()        # names of the CTEs of the statements executed before on this planner
     nontrivial = False
     n_exec = 0
     summary = []
@@ -410,31 +416,56 @@ def judge(case, col):
     for op in case['ops']:
         kind = op['op']
         if kind == 'prepare':
-            parts = op['t']
-            tpl = holes.text(parts)
-            n = len(holes.holes(parts))
-            prev_unexecuted = cur is not None and not cur['executed']
-            cur = None
-            summary.append('prepare: ' + tpl)
-            try:
-                tree = parse_sql(tpl)
-            except Exception as e:
-                col.excluded('template not parsed: ' + site_of(e))
-                continue
-            timg = struct(tree)
-            k = sum(1 for o in walk(tree) if type(o).__name__ == 'Parameter')
-            if k != n:
-                col.excluded(f'parsed template holds {k} Parameter nodes for {n} holes')
-                continue
-            feats = hole_features(parts) | {'stmt:' + type(tree).__name__.lower()}
+            same = bool(op.get('same'))
+            if same:
+                # the caller prepares the very tree object again that it prepared last (on this planner)
+                if last_prep is None or last_prep['n'] == 0:
+                    continue
+                parts, tags, tree, timg, n = (last_prep[x] for x in ('parts', 'tags', 'tree', 'timg', 'n'))
+                tpl = shapes.text(parts)
+                was_executed = cur is not None and cur['executed']
+                prev_unexecuted = cur is not None and not cur['executed']
+                cur = None
+                summary.append('prepare the same tree object again')
+                lossy = False
+            else:
+                parts, tags = op['t'], op.get('tags', [])
+                tpl = shapes.text(parts)
+                n = len(holes.holes(parts))
+                prev_unexecuted = cur is not None and not cur['executed']
+                cur = None
+                last_prep = None
+                summary.append('prepare: ' + tpl)
+                try:
+                    tree = parse_sql(tpl)
+                except Exception as e:
+                    col.excluded('template not parsed: ' + site_of(e))
+                    continue
+                timg = struct(tree)
+                k = sum(1 for o in walk(tree) if type(o).__name__ == 'Parameter')
+                # a SET list that names a column twice: the parser keeps one assignment per column, a placeholder of
+                # the dropped one is not in the tree; still n placeholders are in the statement
+                lossy = k < n and 'update:set-column-twice' in tags
+                if k != n and not lossy:
+                    col.excluded(f'parsed template holds {k} Parameter nodes for {n} holes')
+                    continue
+            feats = hole_features(parts) | {'stmt:' + type(tree).__name__.lower()} \
+                | {t for t in tags if t in shapes.MECHANISM_TAGS}
+            if same:
+                feats.add('hist:same-tree-prepared-again')
+                classes.add('hist:same-tree-again')
+                if was_executed:
+                    classes.add('hist:same-tree-again-after-exec')
             classes.add('op:prepare')
+            if lossy:
+                classes.add('prepare:placeholder-dropped-by-parser')
             if prev_unexecuted:
                 classes.add('hist:prepare-over-unexecuted')
             try:
                 drive_prepare(pl, tree)
             except Exception as e:
                 # refused: judged against preparing the statement with literals
-                probe = holes.text(parts, list(range(1, n + 1)))
+                probe = shapes.text(parts, list(range(1, n + 1)))
                 try:
                     pl2 = query_planner.QueryPlanner(**catalog(cat))
                     drive_prepare(pl2, parse_sql(probe))
@@ -444,31 +475,52 @@ def judge(case, col):
                 if e2 is not None and type(e2) is type(e):
                     classes.add('prepare:refused-like-inline')
                     classes.add('prepare-refused:' + str(e)[:40])
+                    if not isinstance(e, PlanningException):
+                        # not a refusal but a crash: the planner itself plans the statement
+                        try:
+                            plan_query(parse_sql(probe), **catalog(cat))
+                            planned = True
+                        except Exception:
+                            planned = False
+                        if planned:
+                            classes.add('prepare:crash-on-plannable')
+                            out.append(findings.record(
+                                'prepare-raises', site_of(e), feats, cfg,
+                                f'{e!r}: not a PlanningException (preparing the inlined statement raises the same), '
+                                f'while plan_query plans the inlined statement', tpl))
                 else:
                     out.append(findings.record('prepare-raises', site_of(e), feats, cfg,
                                                f'{e!r}; preparing the inlined statement: {e2!r}', tpl))
                 # the statement object exists all the same (params are collected before the columns)
-            cur = {'parts': parts, 'tpl': tpl, 'n': n, 'executed': False, 'feats': feats, 'timg': timg,
-                   'tags': op.get('tags', [])}
+            cur = {'parts': parts, 'tpl': tpl, 'n': n, 'executed': False, 'feats': feats, 'timg': timg, 'tags': tags}
+            if not lossy:
+                last_prep = {'parts': parts, 'tags': tags, 'tree': tree, 'timg': timg, 'n': n}
             rec = check_count(pl, cur, cfg, 'after prepare')
             if rec:
                 out.append(rec)
+            if lossy or (same and rec):
+                cur = None          # nothing further to compare: the tree is not the template any more
         elif kind == 'info':
-            if cur is None or cur['executed']:
+            if cur is None:
                 continue
+            feats = set(cur['feats'])
+            if cur['executed']:
+                feats.add('hist:statement-executed-before')
+                classes.add('hist:info-after-exec')
             classes.add('op:info')
             if last_op == 'wrong':
                 classes.add('hist:info-after-wrong-count')
             summary.append('info')
-            rec = check_count(pl, cur, cfg, 'info()')
+            rec = check_count(pl, cur, cfg, 'info()', feats)
             if rec:
                 out.append(rec)
         elif kind == 'exec':
             values = op['v']
-            if cur is None or cur['executed'] or len(values) != cur['n']:
+            if cur is None or len(values) != cur['n'] or (cur['executed'] and cur['n'] == 0):
                 continue
-            summary.append(f'execute {values!r}')
-            inl = holes.text(cur['parts'], values)
+            again = cur['executed']
+            summary.append(f'execute {values!r}' + (' (again)' if again else ''))
+            inl = shapes.text(cur['parts'], values)
             try:
                 etree = parse_sql(inl)
             except Exception as e:
@@ -484,37 +536,63 @@ def judge(case, col):
                 classes.add('hist:exec-on-reused-planner')
             if last_op == 'wrong':
                 classes.add('hist:exec-after-wrong-count')
+            st_ = cur
+            if again:
+                classes.add('hist:re-execute')
+                st_ = dict(cur, feats=set(cur['feats']) | {'hist:statement-executed-before'})
+            if any(v is None for v in values):
+                st_ = dict(st_, feats=set(st_['feats']) | {'value:null'})
+            if any(re.search(r'\b(FROM|JOIN) %s\b' % w, cur['tpl']) for w in sorted(earlier_ctes)):
+                # a table reference spelled like a CTE of an earlier statement of this planner
+                classes.add('hist:cte-name-of-earlier-statement')
+                st_ = dict(st_, feats=set(st_['feats']) | {'hist:cte-name-of-earlier-statement'})
+            earlier_ctes |= set(re.findall(r'\bWITH (\w+) AS \(', cur['tpl']))
             for v in values:
-                classes.add('val:' + type(v).__name__ + ('-negative' if not isinstance(v, str) and v < 0 else ''))
-            recs, compared = judge_exec(pl, cur, values, etree, cat, cfg, classes)
+                classes.add('val:' + type(v).__name__ + ('-negative' if isinstance(v, (int, float)) and v < 0 else ''))
+            recs, compared = judge_exec(pl, st_, values, etree, cat, cfg, classes)
             out.extend(recs)
             cur['executed'] = True
             tc = template_classes(cur['parts'])
             classes |= tc
             classes |= {'tag:' + t for t in cur['tags'] if t.startswith(('stmt:', 'sub:', 'setop:', 'pred:', 'insert:',
-                                                                          'update:', 'cte', 'expr:'))}
+                                                                          'update:', 'cte', 'expr:', 'setop-chain:'))}
             if compared and cur['n'] >= 2 and len(clauses_of(cur['parts'])) >= 2:
                 nontrivial = True
                 classes.add('exec:nontrivial')
+                if again:
+                    classes.add('exec:nontrivial-again')
         elif kind == 'wrong':
             values = op['v']
-            if cur is None or cur['executed'] or len(values) == cur['n']:
+            if cur is None or (values is None and cur['n'] == 0) or (values is not None and len(values) == cur['n']):
                 continue
+            feats = set(cur['feats'])
+            if cur['executed']:
+                feats.add('hist:statement-executed-before')
+                classes.add('hist:wrong-count-after-exec')
             classes.add('op:wrong-count')
-            classes.add('wrong:fewer' if len(values) < cur['n'] else 'wrong:more')
-            summary.append(f'execute with {len(values)} value(s) for {cur["n"]}')
-            site = 'given<n' if len(values) < cur['n'] else 'given>n'
+            if values is None:
+                # execute_steps() / execute_steps(None): no values for n >= 1 placeholders
+                classes.add('wrong:none')
+                site, given = 'given=None', 'no value list'
+            else:
+                classes.add('wrong:fewer' if len(values) < cur['n'] else 'wrong:more')
+                site, given = ('given<n' if len(values) < cur['n'] else 'given>n'), f'{len(values)} value(s)'
+            summary.append(f'execute with {given} for {cur["n"]}')
             try:
-                list(pl.execute_steps(list(values)))
-                out.append(findings.record('wrong-count-accepted', site, cur['feats'], cfg,
-                                           f'{len(values)} value(s) for {cur["n"]} placeholder(s) planned without error',
+                list(pl.execute_steps(None if values is None else list(values)))
+                out.append(findings.record('wrong-count-accepted', site, feats, cfg,
+                                           f'{given} for {cur["n"]} placeholder(s) planned without error',
                                            cur['tpl']))
-                cur = None
+                cur = last_prep = None      # planned as it is: the caller's tree has been through the planner
             except PlanningException:
-                pass
+                if values is None:
+                    # which check refused is not observable: the call may have passed the count check and failed in
+                    # planning, i.e. it may have been an execution
+                    cur['executed'] = True
+                    last_prep = None
             except Exception as e:
-                out.append(findings.record('wrong-count-other-exception', site_of(e), cur['feats'], cfg,
-                                           f'{len(values)} value(s) for {cur["n"]} placeholder(s): {e!r}', cur['tpl']))
+                out.append(findings.record('wrong-count-other-exception', site_of(e), feats, cfg,
+                                           f'{given} for {cur["n"]} placeholder(s): {e!r}', cur['tpl']))
         last_op = kind
     key = json.dumps([case['catalog']] + [{k: v for k, v in op.items() if k != 'tags'} for op in case['ops']],
                      sort_keys=True)
@@ -522,14 +600,15 @@ def judge(case, col):
     return out
 
 
-def check_count(pl, cur, cfg, when):
+def check_count(pl, cur, cfg, when, feats=None):
+    feats = cur['feats'] if feats is None else feats
     try:
         info = pl.get_statement_info()
         k = len(info['parameters'])
     except Exception as e:
-        return findings.record('info-raises', site_of(e), cur['feats'], cfg, f'{when}: {e!r}', cur['tpl'])
+        return findings.record('info-raises', site_of(e), feats, cfg, f'{when}: {e!r}', cur['tpl'])
     if k != cur['n']:
-        return findings.record('count-mismatch', 'reported<n' if k < cur['n'] else 'reported>n', cur['feats'], cfg,
+        return findings.record('count-mismatch', 'reported<n' if k < cur['n'] else 'reported>n', feats, cfg,
                                f'{when}: {k} parameter(s) reported for {cur["n"]} placeholder(s) in '
                                f'{clauses_of(cur["parts"])}', cur['tpl'])
     return None
@@ -544,29 +623,97 @@ def histories(draw, max_ops=8, max_depth=2):
     n = None
     executed = True
     for _ in range(nops):
-        if n is None or executed:
+        if n is None:
             kind = 'prepare'
+        elif executed:
+            # on an executed statement: mostly the next prepare; else execute it again / info / wrong count / the caller
+            # prepares the same tree object once more
+            kind = draw(st.sampled_from(['prepare'] * 6 + (['exec', 'exec', 'info', 'wrong', 'same'] if n >= 1
+                                                           else ['info'])))
         else:
-            kind = draw(st.sampled_from(['exec'] * 4 + ['info'] * 2 + ['wrong'] * 2 + ['prepare'] * 2))
+            kind = draw(st.sampled_from(['exec'] * 8 + ['info'] * 4 + ['wrong'] * 4 + ['prepare'] * 4
+                                        + (['same'] if n >= 1 else [])))
         if kind == 'prepare':
-            t = draw(holes.template(cat, predictor=(cat == 'predictor'), max_depth=max_depth))
+            t = draw(shapes.template(cat, predictor=(cat == 'predictor'), max_depth=max_depth))
             ops.append({'op': 'prepare', 't': t['parts'], 'tags': t['tags']})
             n = len(holes.holes(t['parts']))
+            executed = False
+        elif kind == 'same':
+            ops.append({'op': 'prepare', 'same': True})
             executed = False
         elif kind == 'info':
             ops.append({'op': 'info'})
         elif kind == 'exec':
-            ops.append({'op': 'exec', 'v': draw(holes.values(n))})
+            ops.append({'op': 'exec', 'v': draw(shapes.values(n))})
             executed = True
         else:
-            m = draw(st.sampled_from([k for k in range(n + 3) if k != n]))
-            ops.append({'op': 'wrong', 'v': draw(holes.values(m))})
+            m = draw(st.sampled_from([k for k in range(n + 3) if k != n] + ([None] if n >= 1 else [])))
+            ops.append({'op': 'wrong', 'v': None if m is None else draw(shapes.values(m))})
     if not executed:
-        ops.append({'op': 'exec', 'v': draw(holes.values(n))})
+        ops.append({'op': 'exec', 'v': draw(shapes.values(n))})
     return {'catalog': cat, 'ops': ops}
 
 
+def fixed_histories():
+    """Bounded list: the shapes of c12_shapes (set-operation chains, WITH before / on a set operation, SET list with a
+    column twice) x 3 catalogs x 4 history forms (plain; after an executed CTE statement of the same CTE name; executed
+    twice + info + wrong counts; the same tree prepared again after execution)."""
+    def H(h, k='operand', d=''):
+        return {'h': h, 'k': k, 'd': d}
+    head = ['WITH w1 AS ( SELECT a AS c1 , b AS c2 FROM int1.t1 WHERE c =', H('cte/where'), ')']
+    # planned step by step (two integrations), so that the planner keeps the result of the CTE
+    cte_sel = head + ['SELECT w1.c1 FROM w1 JOIN int2.t3 AS x3 ON x3.a = w1.c1 WHERE w1.c2 =', H('where')]
+    stmts = []
+    for paren in (True, False):
+        for n in (2, 3):
+            body = ['SELECT w1.c1 FROM w1 WHERE w1.c2 =', H('union-1/where'), 'UNION SELECT a FROM int1.t2 WHERE c =',
+                    H('union-2/where')]
+            if n == 3:
+                body += ['EXCEPT SELECT d FROM int2.t3 WHERE a =', H('union-3/where')]
+            stmts.append((head + (['('] + body + [')'] if paren else body),
+                          ['cte:on-setop' if paren else 'cte:before-setop'] + (['setop:chain'] if n == 3 else [])))
+    s1 = ['SELECT a FROM int1.t1 WHERE b =', H('union-1/where')]
+    s2 = ['SELECT a FROM int1.t2 WHERE c =', H('union-2/where')]
+    s3 = ['SELECT d FROM int2.t3 WHERE a =', H('union-3/where')]
+    s4 = ['SELECT e FROM int2.t4 WHERE a IN (', H('union-4/where', 'in-list'), ',', H('union-4/where', 'in-list'), ')']
+    for o1, o2 in (('UNION', 'UNION'), ('UNION ALL', 'EXCEPT'), ('INTERSECT', 'UNION')):
+        stmts.append((s1 + [o1] + s2 + [o2] + s3, ['setop:chain']))
+        stmts.append((['('] + s1 + [o1] + s2 + [')', o2] + s3, ['setop:chain']))
+        stmts.append((s1 + [o1, '('] + s2 + [o2] + s3 + [')'], ['setop:chain']))
+    stmts.append((s1 + ['UNION'] + s2 + ['UNION'] + s3 + ['UNION ALL'] + s4, ['setop:chain']))
+    for sets in (['a', 'b', 'a'], ['a', 'a'], ['b', 'a', 'c', 'a'], ['a', 'b', 'b']):
+        parts = ['UPDATE int1.t1 SET']
+        for i, c in enumerate(sets):
+            parts += ([','] if i else []) + [c + ' =', H('set')]
+        stmts.append((parts + ['WHERE c =', H('where')], ['update:set-column-twice']))
+    stmts.append((['UPDATE int1.t1 SET a = a , b =', H('set'), ', a =', H('set'), 'WHERE c =', H('where')],
+                  ['update:set-column-twice']))
+    out = []
+    for cat in ('names', 'dicts', 'default-int1'):
+        for parts, tags in stmts:
+            parts = holes.merge_text(parts)
+            n = len(holes.holes(parts))
+            v1, v2 = list(range(101, 101 + n)), [None, 'x'] + list(range(203, 201 + n))
+            prep = {'op': 'prepare', 't': parts, 'tags': tags}
+            out.append({'catalog': cat, 'ops': [prep, {'op': 'info'}, {'op': 'exec', 'v': v1}]})
+            out.append({'catalog': cat, 'ops': [{'op': 'prepare', 't': holes.merge_text(cte_sel), 'tags': ['cte']},
+                                                {'op': 'exec', 'v': [1, 2]}, prep, {'op': 'exec', 'v': v1}]})
+            out.append({'catalog': cat, 'ops': [prep, {'op': 'wrong', 'v': None}, {'op': 'exec', 'v': v1},
+                                                {'op': 'info'}, {'op': 'wrong', 'v': v1[:-1]},
+                                                {'op': 'exec', 'v': v2[:n]}]})
+            out.append({'catalog': cat, 'ops': [prep, {'op': 'exec', 'v': v1}, {'op': 'prepare', 'same': True},
+                                                {'op': 'info'}, {'op': 'exec', 'v': v2[:n]}]})
+    return out
+
+
 def run_shard(col, k, nshards, tier, seed):
+    for i, c in enumerate(fixed_histories()):
+        if i % nshards == k:
+            for r in judge(c, col):
+                col.fail(r, c)
+    col.exhaustive_parts.append('fixed list of histories: set-operation chains (flat / parenthesised pair left / right), '
+                                'WITH before and on a set operation, UPDATE SET naming a column twice, x 3 catalogs x 4 '
+                                'history forms')
     hyp.explore(col, histories(MAX_OPS[tier], MAX_DEPTH[tier]), judge, N[tier], seed,
                 shrink_key=lambda r: (r['kind'], r['site'][:40]))
     total = col.evaluations
